@@ -54,8 +54,10 @@ class TLCResult:
         self.coverage_zero = []
 
 
-def tlc(wd, module, cfg, workers=8, timeout=900, extra=None, heap=None, simulate=None, deque=False, coverage=False):
-    """Run TLC in wd (spec files are copied there first). Returns TLCResult."""
+def tlc(wd, module, cfg, workers=8, timeout=900, extra=None, heap=None, simulate=None, deque=False, coverage=False, stream_tag=None):
+    """Run TLC in wd (spec files are copied there first). Returns TLCResult.
+    stream_tag: lines starting with <<"TAG" are written to <wd>/<TAG>.lines instead of being kept in memory
+    (for exports of millions of transitions); read them back with tlc_json_file()."""
     for f in os.listdir(SPEC):
         if f.endswith(".tla") or f.endswith(".cfg"):
             shutil.copy(os.path.join(SPEC, f), wd)
@@ -75,15 +77,36 @@ def tlc(wd, module, cfg, workers=8, timeout=900, extra=None, heap=None, simulate
     env = dict(os.environ)
     env["TMPDIR"] = wd   # SANY scratch dirs stay inside the work dir
     env["JAVA_TOOL_OPTIONS"] = env.get("JAVA_TOOL_OPTIONS", "") + " -Djava.io.tmpdir=" + wd
-    try:
-        p = subprocess.run(cmd, cwd=wd, stdout=subprocess.PIPE, stderr=subprocess.STDOUT, timeout=timeout, env=env)
-    except subprocess.TimeoutExpired:
-        subprocess.run(["pkill", "-f", "metadir " + md])
-        raise NoVerdict("TLC timed out after %ds on %s/%s" % (timeout, module, cfg))
     r = TLCResult()
+    if stream_tag:
+        pre = ('<<"%s", ' % stream_tag).encode()
+        keep = []
+        with subprocess.Popen(cmd, cwd=wd, stdout=subprocess.PIPE, stderr=subprocess.STDOUT, env=env) as proc, \
+                open(os.path.join(wd, stream_tag + ".lines"), "wb") as sf:
+            try:
+                for line in proc.stdout:
+                    if line.startswith(pre):
+                        sf.write(line)
+                    else:
+                        keep.append(line)
+                    if time.time() - t0 > timeout:
+                        proc.kill()
+                        raise NoVerdict("TLC timed out after %ds on %s/%s" % (timeout, module, cfg))
+                proc.wait()
+            finally:
+                if proc.poll() is None:
+                    proc.kill()
+        r.rc = proc.returncode
+        r.stdout = b"".join(keep).decode("utf-8", "replace")
+    else:
+        try:
+            p = subprocess.run(cmd, cwd=wd, stdout=subprocess.PIPE, stderr=subprocess.STDOUT, timeout=timeout, env=env)
+        except subprocess.TimeoutExpired:
+            subprocess.run(["pkill", "-f", "metadir " + md])
+            raise NoVerdict("TLC timed out after %ds on %s/%s" % (timeout, module, cfg))
+        r.rc = p.returncode
+        r.stdout = p.stdout.decode("utf-8", "replace")
     r.wall = time.time() - t0
-    r.rc = p.returncode
-    r.stdout = p.stdout.decode("utf-8", "replace")
     shutil.rmtree(md, ignore_errors=True)
     m = re.search(r"(\d+) states generated, (\d+) distinct states found", r.stdout)
     if m:
@@ -103,6 +126,16 @@ def tlc(wd, module, cfg, workers=8, timeout=900, extra=None, heap=None, simulate
     if coverage:
         r.coverage_zero = re.findall(r"^<(\w+) line .*>: 0:0", r.stdout, re.M)
     return r
+
+
+def tlc_json_file(wd, tag):
+    """Iterate over the JSON payloads streamed to <wd>/<tag>.lines by tlc(stream_tag=tag)."""
+    pre = '<<"%s", "' % tag
+    with open(os.path.join(wd, tag + ".lines"), encoding="utf-8") as f:
+        for line in f:
+            line = line.rstrip("\n")
+            if line.startswith(pre) and line.endswith('">>'):
+                yield json.loads(json.loads('"' + line[len(pre):-3] + '"'))
 
 
 def tlc_json_lines(stdout, tag):
